@@ -86,6 +86,7 @@ def run(fb, rep, tier):
     scale_flag(fb, rep)
     invalidate_body(fb, rep)
     solver_overrides(fb, rep)
+    basis_notifications(fb, rep)
     perm_loops(fb, rep)
 
 
@@ -373,6 +374,17 @@ def solver_overrides(fb, rep):
                 got = [strip(a).n if strip(a).k == 'DeclRefExpr' and strip(a).dk == 'parm' else render(a) for a in c.args()]
                 exp = [x for x in pn if x != 'scale' and not x.startswith('new') and x != 'val'][:len(got)]
                 rep.check(got == exp, 'R06.6', key + '|basis-notify-args', '%s:%d' % (f.file, c.l), '%s(%s)' % (c.short, ', '.join(got)), '%s(%s), expected (%s)' % (c.short, ', '.join(got), ', '.join(exp)))
+
+
+def basis_notifications(fb, rep):
+    rep.rule('R06.8', 'SPxBasisBase::changedRow/changedCol/changedElement drop the factorization and restart from the stored descriptor on every path', floor=6)
+    Bc = 'soplex::SPxBasisBase<double>'
+    for nm in ('changedRow', 'changedCol', 'changedElement'):
+        f = fb.one(Bc + '::' + nm)
+        for eff in ('invalidate', 'restoreInitialBasis'):
+            ok, p, _ = must(f, None, lambda n, eff=eff: n.k == 'CXXMemberCallExpr' and n.short == eff)
+            rep.check(ok, 'R06.8', 'SPxBasisBase::%s|%s' % (nm, eff), f.where(), '%s() on every path' % eff,
+                      'a path through %s keeps the factorization / basis vectors of the matrix before the change (%s() is skipped): in one of the two representations the changed coefficient is part of the basis matrix' % (nm, eff), path=p)
 
 
 # ---------------------------------------------------------------------------------------------------
